@@ -282,7 +282,7 @@ PROPS["C10"] = [("kani", "vk_var", ["harness::column_", "hash_harness::hash_set_
 
 PROPS["C05"] = [("kani", "vk_lat", ["coll3::tombstone_set", "coll3::tombstone_map_merge_one_entry"], ("quick",)),
                 ("kani", "vk_lat", ["coll3::tombstone"], ("thorough",))]
-PROPS["C06"] = [("kani", "vk_lat", ["coll3::atomize_set_union", "coll3::atomize_map_union_any_value_iterator"], ("quick",)),
+PROPS["C06"] = [("kani", "vk_lat", ["coll3::atomize_set_union", "coll3::atomize_map_union_any_value_iterator", "coll3::atomize_with_bot_shape_none"], ("quick",)),
                 ("kani", "vk_lat", ["coll3::atomize"], ("thorough",))]
 PROPS["C07"] = [("verus", "lat_pair"),
                 ("kani", "vk_lat", ["coll3::cartesian_product_is_product", "coll3::keyed_bimorphism_"], ("quick",)),
